@@ -188,6 +188,12 @@ fn tables(sink: &mut Out) {
     }
     v
   };
+  // the spirit's printed name for every pillar (the name IS the attribute here: place + inside/outside + direction)
+  for i in 0..60i64 {
+    let nm = catch(|| FetusDay::new(sc(i)).to_string()).unwrap_or_else(|| "<panic>".to_string());
+    let w = sink.w;
+    sink.put(Ev::new("fdn").i("s", 1).i("w", w).i("p", i).s("n", &nm).done());
+  }
   tab(sink, "fetus_where_day", by_pillar(0));
   tab(sink, "fetus_where_lunar", by_pillar(1));
   tab(sink, "fetus_where_late", by_pillar(2));
